@@ -335,7 +335,7 @@ class Affine(Transform):
         other_inds = set(other.param_inds)
         if self_inds.issubset(other_inds):
             klass = other.__class__
-        elif other_inds.isssubset(self_inds):
+        elif other_inds.issubset(self_inds):
             klass = self.__class__
         else:  # neither one contains capabilities of the other
             klass = Affine
